@@ -31,6 +31,7 @@ type Verdict struct {
 	ChargeAlt   []uint64 // other acceptable values (same-shard NFT moves, see DESIGN C16)
 	Labels      []string
 	Named       [][]byte // token identifiers named by the input (C05)
+	Suffixes    []string // exact balance keys (token + nonce) the input names; empty = only the token is known (C05)
 	Credits     []string // addresses credited through a transfer (C09 generic monitor)
 	PayExempt   bool
 	msgItems    []Item
@@ -125,6 +126,7 @@ func (m *Model) judgeESDTTransfer(c *Call, v *Verdict) {
 	token, value := []byte(c.Args[0]), bigOf(c.Args[1])
 	suffix := string(token)
 	v.Named = [][]byte{token}
+	v.Suffixes = []string{suffix}
 	sndLocal, dstLocal := m.local(c.Caller, c.Shard), m.local(c.Rcv, c.Shard)
 	msg := m.msg(c.MsgID)
 	switch {
@@ -232,6 +234,7 @@ func (m *Model) judgeNFTTransfer(c *Call, v *Verdict) {
 	}
 	v.Known, v.Side = true, "dest"
 	it := msg.Items[0]
+	v.Suffixes = []string{it.Suffix}
 	m.flagChecks(v, c, c.Rcv, it.Token, it.Suffix, "ESDTNFTTransfer/dest")
 	m.payCheck(v, c, c.Rcv, vmcommon.MinLenArgumentsESDTNFTTransfer, "ESDTNFTTransfer/dest")
 	v.Credits = []string{string(c.Rcv)}
@@ -259,6 +262,7 @@ func (m *Model) judgeNFTSender(c *Call, v *Verdict) {
 	token, nonce, qty, dest := []byte(c.Args[0]), low64(c.Args[1]), bigOf(c.Args[2]), []byte(c.Args[3])
 	suffix := suffixOf(token, nonce)
 	v.Known, v.Side = true, "sender"
+	v.Suffixes = []string{suffix}
 	snd := m.acc(c.Shard, c.Caller)
 	e := snd.entry(suffix)
 	if len(dest) != len(c.Caller) {
@@ -368,6 +372,7 @@ func (m *Model) judgeMulti(c *Call, v *Verdict) {
 	n := len(msg.Items)
 	for _, it := range msg.Items {
 		v.Named = append(v.Named, it.Token)
+		v.Suffixes = append(v.Suffixes, it.Suffix)
 		m.flagChecks(v, c, c.Rcv, it.Token, it.Suffix, "MultiESDTNFTTransfer/dest")
 		if m.hashClash(c.Shard, c.Rcv, it) {
 			v.fail(pC08, "MultiESDTNFTTransfer/dest/different-hash", "destination holds a different hash under key %x", it.Suffix)
@@ -420,6 +425,7 @@ func (m *Model) judgeMultiSender(c *Call, v *Verdict, args [][]byte, n uint64) {
 	for _, mi := range items {
 		sfx := suffixOf(mi.token, mi.nonce)
 		v.Named = append(v.Named, mi.token)
+		v.Suffixes = append(v.Suffixes, sfx)
 		e := snd.entry(sfx)
 		if _, ok := sndBal[sfx]; !ok {
 			sndBal[sfx] = new(big.Int).Set(e.Value)
